@@ -38,6 +38,7 @@ type SRule struct {
 	LHS   int
 	RHS   []*SNode
 	Arrow string // rule-level `-> Arrow`
+	Code  string // end-of-rule semantic action `{ … }` (no influence on the events)
 }
 
 // SGram is the annotated source grammar. Symbol numbering and names are those of Gram.
@@ -46,6 +47,10 @@ type SGram struct {
 	Rules  []SRule
 	Inputs []GInput
 	names  *Gram // SymName only
+	// Types: value type `{T}` of terminals and of nonterminals that are not inputs (a typed input
+	// changes the signature of its Parse function). Types have no influence on the events; they make
+	// the compiler's default-action (cast) machinery run next to the nested arrows.
+	Types map[int]string
 }
 
 func (sg *SGram) symText(s int) string {
@@ -156,7 +161,11 @@ func (sg *SGram) TM(name string, o TMOpts) string {
 		sb.WriteString("WhiteSpace: /[ ]+/ (space)\n")
 	}
 	for t := 1; t < sg.NT; t++ {
-		fmt.Fprintf(&sb, "'%s': /%s/\n", sg.names.SymName(t), sg.names.SymName(t))
+		ty := ""
+		if sg.Types[t] != "" {
+			ty = " {" + sg.Types[t] + "}"
+		}
+		fmt.Fprintf(&sb, "'%s'%s: /%s/\n", sg.names.SymName(t), ty, sg.names.SymName(t))
 	}
 	sb.WriteString("\n::parser\n\n")
 	var ins []string
@@ -177,7 +186,11 @@ func (sg *SGram) TM(name string, o TMOpts) string {
 		}
 	}
 	for _, lhs := range order {
-		fmt.Fprintf(&sb, "%s :\n", sg.names.SymName(lhs))
+		if sg.Types[lhs] != "" {
+			fmt.Fprintf(&sb, "%s {%s} :\n", sg.names.SymName(lhs), sg.Types[lhs])
+		} else {
+			fmt.Fprintf(&sb, "%s :\n", sg.names.SymName(lhs))
+		}
 		first := true
 		for _, rl := range sg.Rules {
 			if rl.LHS != lhs {
@@ -193,6 +206,9 @@ func (sg *SGram) TM(name string, o TMOpts) string {
 				sb.WriteString("%empty")
 			} else {
 				sg.renderSeq(&sb, rl.RHS)
+			}
+			if rl.Code != "" {
+				sb.WriteString(" " + rl.Code)
 			}
 			if rl.Arrow != "" {
 				sb.WriteString(" -> " + rl.Arrow)
@@ -544,7 +560,105 @@ func decorateSrc(r *rand.Rand, g0 *Gram, fixWS bool) (*SGram, map[string]bool) {
 	for _, rl := range g.Rules {
 		sg.Rules = append(sg.Rules, d.rule(rl))
 	}
+	d.assignTypes(sg, 0, 0)
 	return sg, d.features
+}
+
+var srcTypePool = []string{"int", "string", "[]int", "float64", "map[string]bool"}
+
+var srcTypeValue = map[string]string{"int": "1", "string": `"x"`, "[]int": "[]int{1}", "float64": "1.5", "map[string]bool": "nil"}
+
+// leadType: value type of the first symbol reference of the sequence ("" for a list or untyped).
+func (sg *SGram) leadType(nodes []*SNode) string {
+	for _, n := range nodes {
+		switch n.Kind {
+		case skMarker:
+			continue
+		case skSym:
+			return sg.Types[n.Sym]
+		case skGroup:
+			if len(n.Kids) > 0 {
+				return sg.leadType(n.Kids)
+			}
+		case skChoice:
+			return sg.leadType(n.Kids[0].Kids)
+		}
+		return ""
+	}
+	return ""
+}
+
+func hasInlineArrow(nodes []*SNode) bool {
+	for _, n := range nodes {
+		switch n.Kind {
+		case skGroup:
+			if n.Arrow != "" || hasInlineArrow(n.Kids) {
+				return true
+			}
+		case skChoice:
+			if n.Arrow != "" || hasInlineArrow(n.Kids) {
+				return true
+			}
+		case skList:
+			if n.ListArrow != "" {
+				return true
+			}
+		}
+	}
+	return false
+}
+
+// assignTypes gives value types to most terminals and to the nonterminals that are not inputs
+// (2-3 types per grammar, so that a rule's first symbol has the type of its left-hand side in some
+// rules and another type in others), and end-of-rule action code to a few rules.
+func (d *srcDeco) assignTypes(sg *SGram, lhs, lead int) {
+	if (lhs == 0 && d.r.Intn(4) == 0) || d.r.Intn(10) == 0 {
+		return // an untyped grammar
+	}
+	perm := d.r.Perm(len(srcTypePool))
+	pool := []string{srcTypePool[perm[0]], srcTypePool[perm[1]]}
+	if d.r.Intn(2) == 0 {
+		pool = append(pool, srcTypePool[perm[2]])
+	}
+	sg.Types = map[int]string{}
+	for t := 1; t < sg.NT; t++ {
+		if d.r.Intn(5) != 0 {
+			sg.Types[t] = pool[d.r.Intn(len(pool))]
+		}
+	}
+	isInput := map[int]bool{}
+	for _, in := range sg.Inputs {
+		isInput[in.Sym] = true
+	}
+	for s := sg.NT; s < sg.NT+sg.NN; s++ {
+		if !isInput[s] && d.r.Intn(4) != 0 {
+			sg.Types[s] = pool[d.r.Intn(len(pool))]
+		}
+	}
+	if lhs > 0 && !isInput[lhs] && d.r.Intn(6) != 0 {
+		// the template's statement nonterminal and the first terminal of one of its rules: two types
+		sg.Types[lhs], sg.Types[lead] = pool[0], pool[1]
+	}
+	d.features["value types"] = true
+	for i := range sg.Rules {
+		rl := &sg.Rules[i]
+		if d.r.Intn(8) == 0 {
+			if ty := sg.Types[rl.LHS]; ty != "" {
+				rl.Code = "{ $$ = " + srcTypeValue[ty] + " }"
+			} else {
+				rl.Code = "{ _ = 1 }"
+			}
+			d.features["action code on a rule"] = true
+		}
+		lt := sg.leadType(rl.RHS)
+		if ty := sg.Types[rl.LHS]; ty != "" && rl.Code == "" && hasInlineArrow(rl.RHS) {
+			if lt != "" && lt != ty {
+				d.features["typed rule with nested arrows, no code, first symbol of ANOTHER type"] = true
+			} else {
+				d.features["typed rule with nested arrows, no code, first symbol of the same or no type"] = true
+			}
+		}
+	}
 }
 
 // tmplSrc builds a "statement list" grammar that always contains the shapes the random decoration
@@ -586,8 +700,13 @@ func tmplSrc(r *rand.Rand) (*SGram, map[string]bool) {
 	// statement A: 'a' N2 .m0
 	tailA := symNode(n2)
 	stA := []*SNode{symNode(a), tailA}
-	if opt(30) {
+	switch r.Intn(4) {
+	case 0:
 		stA = []*SNode{symNode(a), {Kind: skGroup, Kids: []*SNode{tailA}, Arrow: d.arrow("T")}}
+	case 1:
+		stA = []*SNode{{Kind: skGroup, Kids: []*SNode{symNode(a)}, Arrow: d.arrow("T")}, tailA}
+	case 2:
+		stA = []*SNode{{Kind: skGroup, Kids: []*SNode{symNode(a)}, Arrow: d.arrow("T")}, {Kind: skGroup, Kids: []*SNode{tailA}, Arrow: d.arrow("T")}}
 	}
 	if opt(85) {
 		stA = append(stA, marker(0))
@@ -646,10 +765,11 @@ func tmplSrc(r *rand.Rand) (*SGram, map[string]bool) {
 	}
 	sg.Rules = append(sg.Rules, SRule{LHS: n3, RHS: ex, Arrow: "RP"})
 	sg.Inputs = []GInput{{Sym: n0, Eoi: true}, {Sym: n3, Eoi: opt(25)}}
-	if opt(30) {
+	if opt(15) {
 		sg.Inputs = append(sg.Inputs, GInput{Sym: n1, Eoi: true})
 	}
 	d.features["template"] = true
+	d.assignTypes(sg, n1, a)
 	return sg, d.features
 }
 
